@@ -215,3 +215,28 @@ Proof.
   - constructor; [|exact NDr]. intro Hd. destruct (Mr' d Hd) as [_ X]. apply X. reflexivity.
   - intros x [<-|Hx]; [exact A|]. apply (Mr' x Hx).
 Qed.
+
+(** ** add_connection of a new key: the part before the neighbour update (repaired source) *)
+Definition add_connection_core (g : geo) (k : id) : geo :=
+  let g1 := set_kdict (set_klist g (klist g ++ [k])) (aset key2_eqb (kdict g) (kkey g k) k) in
+  let g2 := set_knode g1 (fset (knode g1) k (connection_nodes g1 (k0 g k) (k1 g k))) in
+  ccon_add (ccon_add g2 (k0 g k) k) (k1 g k) k.
+Lemma add_connection_obj_eq g k : kget g (kkey g k) = None ->
+  add_connection_obj g k = if fx_nbr (fx g) then nbr_add (nbr_add (add_connection_core g k) (k0 g k) (k1 g k)) (k1 g k) (k0 g k)
+                           else add_connection_core g k.
+Proof. intro H. unfold add_connection_obj, add_connection_core. rewrite H. reflexivity. Qed.
+(** adding two columns to each other's neighbour sets, as a map update; doing it twice changes nothing *)
+Definition nbr2 (M : fmap (list id)) (c c2 : id) : fmap (list id) :=
+  fset (fset M c (sadd (fget [] M c) c2)) c2 (sadd (fget [] (fset M c (sadd (fget [] M c) c2)) c2) c).
+Lemma nbr2_idem M c c2 x : c <> c2 -> fget [] (nbr2 (nbr2 M c c2) c c2) x = fget [] (nbr2 M c c2) x.
+Proof.
+  intro N. assert (N' : c2 <> c) by (intro X; apply N; symmetry; exact X).
+  assert (Ec : fget [] (nbr2 M c c2) c = sadd (fget [] M c) c2) by (unfold nbr2; rewrite fget_fset_neq by exact N; apply fget_fset_eq).
+  assert (Ec2 : fget [] (nbr2 M c c2) c2 = sadd (fget [] M c2) c).
+  { unfold nbr2. rewrite fget_fset_eq, fget_fset_neq by exact N'. reflexivity. }
+  unfold nbr2 at 1. rewrite fget_fset. destruct (Pos.eqb_spec x c2) as [->|Nx2].
+  - rewrite fget_fset_neq by exact N'. rewrite Ec2, sadd_idem. reflexivity.
+  - rewrite fget_fset. destruct (Pos.eqb_spec x c) as [->|Nx]; [rewrite Ec, sadd_idem; reflexivity|reflexivity].
+Qed.
+Lemma nbr_add2_cnbr g c c2 : cnbr (nbr_add (nbr_add g c c2) c2 c) = nbr2 (cnbr g) c c2.
+Proof. reflexivity. Qed.
